@@ -241,8 +241,13 @@ func (l *fakeLightning) DecodePayReq(ctx context.Context, in *lnrpc.PayReqString
 	if err != nil {
 		return nil, err
 	}
-	return &lnrpc.PayReq{Destination: b.D, PaymentHash: b.H, NumSatoshis: int64(b.A / 1000), NumMsat: int64(b.A), CltvExpiry: b.C,
-		Expiry: 3600, Timestamp: 0, Description: b.L}, nil
+	pr := &lnrpc.PayReq{Destination: b.D, PaymentHash: b.H, NumSatoshis: int64(b.A / 1000), NumMsat: int64(b.A), CltvExpiry: b.C,
+		Expiry: 3600, Timestamp: 0, Description: b.L}
+	for _, h := range b.R {
+		pr.RouteHints = append(pr.RouteHints, &lnrpc.RouteHint{HopHints: []*lnrpc.HopHint{{NodeId: h.Pubkey, ChanId: lndChanID(h.Scid), CltvExpiryDelta: h.Delta}}})
+		l.f.n.w.Probe("ln:invoice-with-route-hints-decoded")
+	}
+	return pr, nil
 }
 
 func (l *fakeLightning) AddInvoice(ctx context.Context, in *lnrpc.Invoice, opts ...grpc.CallOption) (*lnrpc.AddInvoiceResponse, error) {
@@ -657,6 +662,10 @@ func (k *fakeWalletKit) FundPsbt(ctx context.Context, in *walletrpc.FundPsbtRequ
 		return nil, status.Error(codes.Unknown, "insufficient funds available to construct transaction")
 	}
 	lay := w.Plan.Scn.Layout[n.ID]
+	if lay.FeeMult > 1 && b.Balance >= amount+fee*uint64(lay.FeeMult) {
+		fee *= uint64(lay.FeeMult)
+		w.Probe("layout:expensive-funding")
+	}
 	tx := wire.NewMsgTx(2)
 	in0 := wire.NewTxIn(wire.NewOutPoint(ptrHash(randHash()), 0), nil, nil)
 	in0.Sequence = 0xfffffffd
